@@ -95,6 +95,61 @@ def check_find_valid_neighbors(ctx, report, status, ks, rng, n):
     return problems
 
 
+PIXEL_KERNELS = {  # Lean name -> (class, method, cell tolerated on a tie of |d| with opposite signs: numba's argsort is not stable)
+    "occlusionSgmPx": ("SgmInterpolation", "interpolate_occlusion_sgm", True),
+}
+
+
+def flagged_map(rng):
+    """a small map with occlusions / mismatches among valid and invalid pixels"""
+    disp, flag = small_map(rng)
+    for r, row in enumerate(flag):
+        for c, _ in enumerate(row):
+            if rng.random() < 0.35:
+                row[c] = rng.choice([256, 512, 256 + 4, 512 + 8, 256 + 16, 512 + 32, 256 + 2048, 256 + 512])
+                if rng.random() < 0.6:
+                    disp[r][c] = "nan"
+    return disp, flag
+
+
+def check_pixel_kernels(ctx, report, status, ks, rng, n):
+    from pandora.validation import interpolated_disparity as mod
+    from translator import pyloops, pyloops_ext
+
+    problems = 0
+    for name, (cls, meth, sign_ties) in PIXEL_KERNELS.items():
+        if name not in ks:
+            continue
+        k = ks[name]
+        real_fn = getattr(getattr(mod, cls), meth)
+        for _ in range(n):
+            disp, flag = flagged_map(rng)
+            rows, cols = len(flag), len(flag[0])
+            d, f = np_maps(disp, flag)
+            od, ov = real_fn(d, f)
+            ed = pyloops.Arr([[v for v in r] for r in disp], (rows, cols))
+            ef = pyloops.Arr([list(r) for r in flag], (rows, cols))
+            report.count("kernel_" + meth + "_calls")
+            for r in range(rows):
+                for c in range(cols):
+                    real = [canon(od[r, c]), int(ov[r, c])]
+                    try:
+                        res, vals = pyloops_ext.evaluate_at(k, [ed, ef], r, c)
+                        mine = [exact_val(vals[0]), int(vals[1])] if res == "ok" else res
+                    except Exception as exc:  # pylint: disable=broad-except
+                        mine = f"{type(exc).__name__}: {exc}"
+                    if mine != real:
+                        if sign_ties and isinstance(mine, list) and mine[1] == real[1] and "nan" not in (mine[0], real[0]) \
+                                and abs(mine[0]) == abs(real[0]):
+                            report.count("kernel_sign_ties_compared_on_abs")
+                            continue
+                        problems += 1
+                        if problems <= 3:
+                            status.problem("translator", f"translated {meth} evaluates differently from the real function on "
+                                           f"disp={disp} valid={flag} pixel=({r},{c})", f"real={real} evaluator={mine}")
+    return problems
+
+
 def kernel_cross_check(ctx, report, status):
     try:
         from translator import gen_kernels_interp
@@ -104,3 +159,4 @@ def kernel_cross_check(ctx, report, status):
     report.translator_checks += 1
     rng = random.Random(ctx.seed * 7919 + 1414)  # its own stream: the streams of `run` keep their cases
     check_find_valid_neighbors(ctx, report, status, ks, rng, ctx.n(60, 600))
+    check_pixel_kernels(ctx, report, status, ks, rng, ctx.n(120, 1200))
